@@ -32,7 +32,7 @@ def term_dt(t):
 def nt_term(t):
     if t[0] == 'I': return '<%s>' % t[1]
     if t[0] == 'B': return t[1]
-    lex = t[1]
+    lex = t[1].replace('\\', '\\\\').replace('"', '\\"')      # N-Triples escapes (no-op for plain lexical forms)
     if t[3]: return '"%s"@%s' % (lex, t[3])
     if t[2] == XSD + 'string': return '"%s"' % lex
     return '"%s"^^<%s>' % (lex, t[2])
